@@ -73,6 +73,7 @@ func rprop_dense_with_gradient(evalGradient DenseGradientF, x0 DenseFloat64Vecto
     if hook.Value != nil && hook.Value(gradient_new, step, x1, nil) {
       break;
     }
+    reduced := false
     for {
       verifhook.Tick("rprop.backtrack")
       // update x
@@ -100,9 +101,23 @@ func rprop_dense_with_gradient(evalGradient DenseGradientF, x0 DenseFloat64Vecto
             step[i] *= eta[1]
           }
         }
+        reduced = true
       } else {
         // new position is valid, exit loop
         break
+      }
+    }
+    if reduced {
+      // every step that moves x was rejected and the step sizes have shrunk
+      // until x2 equals x1: no further progress is possible
+      moved := false
+      for i := 0; i < x1.Dim(); i++ {
+        if x1[i] != x2[i] {
+          moved = true
+        }
+      }
+      if !moved {
+        return x1, fmt.Errorf("no valid step found")
       }
     }
     // evaluate stop criterion
